@@ -2,7 +2,7 @@
 //! model in step (acquire at return, release at invocation).
 
 use std::cell::RefCell;
-use std::sync::atomic::Ordering::SeqCst;
+use std::sync::atomic::Ordering::{self, SeqCst};
 
 use circ::{AtomicRc, AtomicWeak, Guard, Rc, Snapshot, Weak, WeakSnapshot};
 
@@ -82,6 +82,40 @@ pub struct HistEv {
 }
 
 pub static mut HISTORY: Vec<HistEv> = Vec::new();
+
+/// Memory orderings the workload passes to the cell operations (per-run knob; under the
+/// simulator's sequentially consistent execution they must all behave alike):
+/// 0 SeqCst everywhere, 1 Relaxed everywhere, 2 Acquire / Release / AcqRel, 3 a mixture.
+pub static ORD_MODE: std::sync::atomic::AtomicU8 = std::sync::atomic::AtomicU8::new(0);
+fn ord_load() -> Ordering {
+    match ORD_MODE.load(Ordering::Relaxed) {
+        1 => Ordering::Relaxed,
+        2 | 3 => Ordering::Acquire,
+        _ => SeqCst,
+    }
+}
+fn ord_store() -> Ordering {
+    match ORD_MODE.load(Ordering::Relaxed) {
+        1 => Ordering::Relaxed,
+        2 => Ordering::Release,
+        _ => SeqCst,
+    }
+}
+fn ord_rmw() -> Ordering {
+    match ORD_MODE.load(Ordering::Relaxed) {
+        1 => Ordering::Relaxed,
+        2 => Ordering::AcqRel,
+        3 => Ordering::Release,
+        _ => SeqCst,
+    }
+}
+fn ord_fail() -> Ordering {
+    match ORD_MODE.load(Ordering::Relaxed) {
+        1 | 3 => Ordering::Relaxed,
+        2 => Ordering::Acquire,
+        _ => SeqCst,
+    }
+}
 
 #[allow(static_mut_refs)]
 fn hist_push(h: HistEv) {
@@ -416,6 +450,34 @@ impl<M: AlignMarker> Ctx<M> {
                     }
                 }
             }
+            K::PanicCs => {
+                // a guard that is dropped by unwinding while a collection is pending: whatever the
+                // collection pops is run (or handed on) as usual, panicking thread or not
+                let me: *mut Ctx<M> = self as *mut Ctx<M>;
+                let r = std::panic::catch_unwind(std::panic::AssertUnwindSafe(|| {
+                    let ctx = unsafe { &mut *me };
+                    let g = circ::cs();
+                    match a {
+                        1 => crate::closures::defer_shape_chain(tid, &g, b, 0),
+                        2 => {
+                            if let Some(i) = (0..NRC).find(|&i| ctx.rcs[i].is_some()) {
+                                let rc = ctx.rcs[i].take().unwrap();
+                                ctx.release_rc(rc);
+                            }
+                        }
+                        _ => {}
+                    }
+                    g.flush();
+                    user_yield();
+                    sim().fault("panic_with_guard");
+                    std::panic::resume_unwind(Box::new(InjectedPanic));
+                }));
+                if let Err(e) = r {
+                    if !e.is::<InjectedPanic>() {
+                        std::panic::resume_unwind(e);
+                    }
+                }
+            }
             K::New => {
                 if a >= NRC || self.rcs[a].is_some() {
                     return;
@@ -427,7 +489,7 @@ impl<M: AlignMarker> Ctx<M> {
                     shadow().objs[id as usize].rank = rank;
                 }
                 // optional plain-Rc edge, only towards a higher-ranked node
-                if b < NRC {
+                if b < NRC && d < 5 {
                     if let Some(src) = self.rcs[b].as_ref() {
                         let w = circ::verif::rc_word(src);
                         if let Some(t) = shadow().obj_of_word(w) {
@@ -474,6 +536,23 @@ impl<M: AlignMarker> Ctx<M> {
                                 conv_field = d;
                                 sim().probe("field_from_conversion");
                             }
+                        }
+                    }
+                }
+                // d = 5, 6: the weak field filled from the Weak in slot b, through get_mut() on the
+                // still private node / through AtomicWeak::from(Weak)
+                if (d == 5 || d == 6) && b < NWEAK {
+                    if let Some(src) = self.weaks[b].as_ref() {
+                        if let Some(t) = shadow().obj_of_word(circ::verif::weak_word(src)) {
+                            let wk = src.clone();
+                            shadow().acquire_weak(t, "Weak::clone");
+                            if d == 5 {
+                                *node.wlink.get_mut() = wk;
+                            } else {
+                                node.wlink = AtomicWeak::from(wk);
+                            }
+                            conv_field = 3;
+                            sim().probe("field_from_conversion");
                         }
                     }
                 }
@@ -534,7 +613,7 @@ impl<M: AlignMarker> Ctx<M> {
                 }
             }
             K::NewIter => {
-                let count = [0usize, 1, 2, 3, 5][a % 5];
+                let count = [0usize, 1, 2, 3, 5, 8, 17][a % 7];
                 let take = b.min(count + 1);
                 let (node, id, _rank) = self.new_node(Origin::NewIter(count as u32));
                 crate::alloc::capture_begin(circ::verif::block_layout::<Node<M>>().0);
@@ -569,9 +648,57 @@ impl<M: AlignMarker> Ctx<M> {
                     sim().violation("C10", "new_many_iter-wrong-count", "new_many_iter-wrong-count", &format!("new_many_iter(_, {}) yielded {} pointers", count, yielded));
                 }
                 user_yield();
+                // c bits 1-2: skip over shares through the iterator adaptors (nth / step_by): the
+                // skipped shares are released inside the call (release at invocation)
+                let mut remaining = count - yielded;
+                let mode = (c >> 1) & 3;
+                let mut handed: Vec<Rc<Node<M>>> = Vec::new();
+                match mode {
+                    1 | 2 => {
+                        let k = if mode == 1 { 1 } else { count };
+                        let skipped = k.min(remaining);
+                        shadow().release_strong(id, skipped as i64);
+                        remaining -= skipped;
+                        let r = it.nth(k);
+                        if r.is_some() != (remaining > 0) {
+                            sim().violation("C10", "new_many_iter-wrong-count", "new_many_iter-wrong-count", &format!("new_many_iter(_, {}): nth({}) after {} yielded pointers returned {}", count, k, yielded, if r.is_some() { "a pointer" } else { "None" }));
+                        }
+                        if let Some(rc) = r {
+                            remaining -= 1;
+                            handed.push(rc);
+                        }
+                        sim().probe("new_many_iter_nth");
+                    }
+                    3 => {
+                        let kept = remaining.div_ceil(2);
+                        shadow().release_strong(id, (remaining / 2) as i64);
+                        let v: Vec<Rc<Node<M>>> = it.by_ref().step_by(2).collect();
+                        if v.len() != kept {
+                            sim().violation("C10", "new_many_iter-wrong-count", "new_many_iter-wrong-count", &format!("new_many_iter(_, {}): step_by(2) over the last {} shares yielded {} pointers", count, remaining, v.len()));
+                        }
+                        remaining = 0;
+                        handed.extend(v);
+                        sim().probe("new_many_iter_step_by");
+                    }
+                    _ => {}
+                }
+                for rc in handed {
+                    let o = shadow().obj_of_word(circ::verif::rc_word(&rc));
+                    if o != Some(id) || rc.is_null() {
+                        sim().violation("C10", "new_many_iter-bad-pointer", "new_many_iter-bad-pointer", "iterator yielded a null/foreign pointer");
+                    }
+                    match self.free_rc_slot() {
+                        Some(s) => self.put_rc(s, rc),
+                        None => {
+                            user_yield();
+                            self.release_rc(rc)
+                        }
+                    }
+                }
+                user_yield();
                 // the shares never yielded are released by abort/drop (release at invocation)
-                shadow().release_strong(id, (count - yielded) as i64);
-                if c != 0 {
+                shadow().release_strong(id, remaining as i64);
+                if c & 1 != 0 {
                     if let Some((g, _)) = self.guard_ref(d) {
                         it.abort(g);
                         return;
@@ -631,13 +758,16 @@ impl<M: AlignMarker> Ctx<M> {
                     return;
                 }
                 let Some(src) = self.rcs[a].as_ref() else { return };
-                let n = [0usize, 1, 2, 3][b % 4];
+                let n = [0usize, 1, 2, 3, 8, 9, 16][b % 7];
                 let src_word = circ::verif::rc_word(src);
                 let ws: Vec<Weak<Node<M>>> = match n {
                     0 => src.weak_many::<0>().into_iter().collect(),
                     1 => src.weak_many::<1>().into_iter().collect(),
                     2 => src.weak_many::<2>().into_iter().collect(),
-                    _ => src.weak_many::<3>().into_iter().collect(),
+                    3 => src.weak_many::<3>().into_iter().collect(),
+                    8 => src.weak_many::<8>().into_iter().collect(),
+                    9 => src.weak_many::<9>().into_iter().collect(),
+                    _ => src.weak_many::<16>().into_iter().collect(),
                 };
                 let sh = shadow();
                 let target = sh.obj_of_word(src_word);
@@ -771,7 +901,7 @@ impl<M: AlignMarker> Ctx<M> {
                 let Some((g, uid)) = self.guard_ref(b) else { return };
                 let Some((cell, _)) = self.cell(o.a) else { return };
                 let inv = sim().seq;
-                let s = cell.load(SeqCst, g);
+                let s = cell.load(ord_load(), g);
                 let w = circ::verif::snapshot_word(&s);
                 if let Some(ob) = shadow().obj_of_word(w) {
                     shadow().hold(tid, uid, ob, false, Src::Load);
@@ -792,7 +922,7 @@ impl<M: AlignMarker> Ctx<M> {
                 }
                 let inv = sim().seq;
                 // the token moves into the cell; the previous content is released at the swap
-                cell.store(rc, SeqCst, g);
+                cell.store(rc, ord_store(), g);
                 hist_push(HistEv { tid, cell: circ::verif::atomic_rc_addr(cell), weak_cell: false, kind: K::Store, weak_cas: false, inv, ret: sim().seq, input: self.val(w), expected: (0, 0), ok: true, output: (0, 0), back: (0, 0) });
             }
             K::Swap => {
@@ -807,7 +937,7 @@ impl<M: AlignMarker> Ctx<M> {
                     return;
                 }
                 let inv = sim().seq;
-                let old = cell.swap(rc, SeqCst);
+                let old = cell.swap(rc, ord_rmw());
                 let ow = circ::verif::rc_word(&old);
                 hist_push(HistEv { tid, cell: circ::verif::atomic_rc_addr(cell), weak_cell: false, kind: K::Swap, weak_cas: false, inv, ret: sim().seq, input: self.val(w), expected: (0, 0), ok: true, output: self.val(ow), back: (0, 0) });
                 if let Some(ob) = shadow().obj_of_word(ow) {
@@ -843,7 +973,7 @@ impl<M: AlignMarker> Ctx<M> {
                 let ew = circ::verif::snapshot_word(&exp);
                 let inv = sim().seq;
                 let weak = d & 1 != 0;
-                let res = if weak { cell.compare_exchange_weak(exp, des, SeqCst, SeqCst, g) } else { cell.compare_exchange(exp, des, SeqCst, SeqCst, g) };
+                let res = if weak { cell.compare_exchange_weak(exp, des, ord_rmw(), ord_fail(), g) } else { cell.compare_exchange(exp, des, ord_rmw(), ord_fail(), g) };
                 let caddr = circ::verif::atomic_rc_addr(cell);
                 match res {
                     Ok(old) => {
@@ -894,7 +1024,7 @@ impl<M: AlignMarker> Ctx<M> {
                 let caddr = circ::verif::atomic_rc_addr(cell);
                 let sh = shadow();
                 let want = (sh.obj_of_word(ew).map(|x| x + 1).unwrap_or(0), t & sh.tag_mask);
-                match cell.compare_exchange_tag(exp, t, SeqCst, SeqCst, g) {
+                match cell.compare_exchange_tag(exp, t, ord_rmw(), ord_fail(), g) {
                     Ok(prev) => {
                         let pw = circ::verif::snapshot_word(&prev);
                         hist_push(HistEv { tid, cell: caddr, weak_cell: false, kind: K::CasTag, weak_cas: false, inv, ret: sim().seq, input: want, expected: self.val(ew), ok: true, output: self.val(pw), back: (0, 0) });
@@ -1019,7 +1149,7 @@ impl<M: AlignMarker> Ctx<M> {
                 let Some((g, uid)) = self.guard_ref(b) else { return };
                 let Some(cell) = self.wcell(o.a) else { return };
                 let inv = sim().seq;
-                let s = cell.load(SeqCst, g);
+                let s = cell.load(ord_load(), g);
                 let w = circ::verif::weak_snapshot_word(&s);
                 if let Some(ob) = shadow().obj_of_word(w) {
                     shadow().hold(tid, uid, ob, true, Src::WLoad);
@@ -1033,7 +1163,7 @@ impl<M: AlignMarker> Ctx<M> {
                 let w = if b < NWEAK { self.weaks[b].take() } else { None }.unwrap_or_else(Weak::null);
                 let ww = circ::verif::weak_word(&w);
                 let inv = sim().seq;
-                cell.store(w, SeqCst, g);
+                cell.store(w, ord_store(), g);
                 hist_push(HistEv { tid, cell: circ::verif::atomic_weak_addr(cell), weak_cell: true, kind: K::StoreW, weak_cas: false, inv, ret: sim().seq, input: self.val(ww), expected: (0, 0), ok: true, output: (0, 0), back: (0, 0) });
             }
             K::SwapW => {
@@ -1044,7 +1174,7 @@ impl<M: AlignMarker> Ctx<M> {
                 let w = self.weaks[b].take().unwrap_or_else(Weak::null);
                 let ww = circ::verif::weak_word(&w);
                 let inv = sim().seq;
-                let old = cell.swap(w, SeqCst);
+                let old = cell.swap(w, ord_rmw());
                 let ow = circ::verif::weak_word(&old);
                 hist_push(HistEv { tid, cell: circ::verif::atomic_weak_addr(cell), weak_cell: true, kind: K::SwapW, weak_cas: false, inv, ret: sim().seq, input: self.val(ww), expected: (0, 0), ok: true, output: self.val(ow), back: (0, 0) });
                 if !old.is_null() || old.tag() != 0 {
@@ -1070,7 +1200,7 @@ impl<M: AlignMarker> Ctx<M> {
                 let inv = sim().seq;
                 let weak = d != 0;
                 let caddr = circ::verif::atomic_weak_addr(cell);
-                let res = if weak { cell.compare_exchange_weak(exp, des, SeqCst, SeqCst, g) } else { cell.compare_exchange(exp, des, SeqCst, SeqCst, g) };
+                let res = if weak { cell.compare_exchange_weak(exp, des, ord_rmw(), ord_fail(), g) } else { cell.compare_exchange(exp, des, ord_rmw(), ord_fail(), g) };
                 match res {
                     Ok(old) => {
                         let ow = circ::verif::weak_word(&old);
@@ -1113,7 +1243,7 @@ impl<M: AlignMarker> Ctx<M> {
                 let caddr = circ::verif::atomic_weak_addr(cell);
                 let sh = shadow();
                 let want = (sh.obj_of_word(ew).map(|x| x + 1).unwrap_or(0), t & sh.tag_mask);
-                match cell.compare_exchange_tag(exp, t, SeqCst, SeqCst, g) {
+                match cell.compare_exchange_tag(exp, t, ord_rmw(), ord_fail(), g) {
                     Ok(prev) => {
                         let pw = circ::verif::weak_snapshot_word(&prev);
                         hist_push(HistEv { tid, cell: caddr, weak_cell: true, kind: K::CasTagW, weak_cas: false, inv, ret: sim().seq, input: want, expected: self.val(ew), ok: true, output: self.val(pw), back: (0, 0) });
